@@ -147,3 +147,46 @@ def wrapper(u, w, pre_elab):
         ok, why = dc.compare(exp, pkg, riders=True, spice=(u not in (1, 2)))
         dc.LAST["why"] = why
         return ok
+
+
+def _revised(first, second, n1, n2, edit):
+    """history: the generators run over a unit module, the designer then revises that module (a further port), and
+    the generators run over it again with other parameters: the second result is built over the unit as it is NOW"""
+    env._reset_all()
+    from hdl21.generators import Series, Wrapper
+    ports0 = [("a", 1), ("b", 1)]
+    extra = [("en", 1)] if edit == 0 else [("bus", 2), ("a_", 1)]
+    body = [Inst("r", Prim("R", dict(r=2)), {"p": Sig("a"), "n": Sig("b")})]
+    hu = Builder().target(Mod("UnitR", ports=ports0, insts=body))
+    if first == 0:
+        Series(unit=hu, conns=("a", "b"), nser=n1)
+    else:
+        Wrapper(hu)
+    for nm, wd in extra:
+        hu.add(h.Port(name=nm, width=wd))
+    ud = Mod("UnitR", ports=ports0 + extra, insts=body)
+    if second == 0:
+        m = Series(unit=hu, conns=("a", "b"), nser=n2)
+        exp = _expected(ud, n2, "a", "b", "S")
+    else:
+        m = Wrapper(hu)
+        exp = _expected(ud, 1, "__none__", "__none__", "W")
+    if not _same_interface(m, ud):
+        return False
+    pkg = h.to_proto(m)
+    env.COUNTS["reached"] += 1
+    ok, why = dc.compare(exp, pkg, riders=True, spice=True)
+    dc.LAST["why"] = why
+    return ok
+
+
+@harness("C19", also=("C06",), args="first: int, second: int, n1: int, n2: int, edit: int",
+         pre=["0 <= first <= 1", "0 <= second <= 1", "1 <= n1 <= 2", "1 <= n2 <= 3", "0 <= edit <= 1", "first != second or (first == 0 and n1 != n2)"],
+         tiers={"quick": {"timeout": 120}, "thorough": {"timeout": 300}}, sample=(0, 0, 2, 3, 0),
+         bounds="history: Series (nser 1..2) or Wrapper over a unit module, the unit then gains a port (one scalar, or a bus and a scalar), then Series (nser 1..3) or Wrapper over it with other parameters: interface and topology follow the unit as revised",
+         generalises="selectors (solver-enumerated)", outside="revisions other than added ports; a repeated call with EQUAL parameters (memoised by design, C09)")
+def revised_unit(first, second, n1, n2, edit):
+    P = env.pick
+    first, second, n1, n2, edit = P(first, 0, 1), P(second, 0, 1), P(n1, 1, 2), P(n2, 1, 3), P(edit, 0, 1)
+    with env.notrace():
+        return _revised(first, second, n1, n2, edit)
